@@ -406,3 +406,52 @@ Proof.
   unfold spec_routes, spec_stack, nservers. rewrite rev_app_distr. simpl. intros Ht.
   apply Nat.ltb_lt in Ht. now rewrite Ht.
 Qed.
+
+(* ---- throwing layers *)
+Definition quiet_layer (l : layer) : Prop := l_tpre l = false /\ l_tpost l = false.
+Lemma layers_ops_quiet ls h ht : Forall quiet_layer ls ->
+  layers_ops ls h ht =
+  ((List.concat (map l_pre ls) ++ h ++ (if ht then [] else List.concat (map l_post (rev ls))))%list, ht).
+Proof.
+  induction ls as [|l ls IH]; intros F; simpl.
+  - destruct ht; now rewrite ?app_nil_r.
+  - inversion F as [|? ? [Q1 Q2] F']; subst. rewrite Q1, (IH F'). destruct ht.
+    + now rewrite !app_nil_r, <- app_assoc.
+    + rewrite Q2. f_equal. rewrite map_app, concat_app. simpl. rewrite app_nil_r.
+      now rewrite <- !app_assoc.
+Qed.
+
+Lemma number_quiet mws : forall i, number i (map quiet mws) = map (fun im => (fst im, quiet (snd im))) (number i mws).
+Proof. induction mws as [|m r IH]; intros i; simpl; [reflexivity|]. now rewrite IH. Qed.
+
+Lemma nth_quiet mws : forall i,
+  snd (nth i (map quiet mws) (0%Z, no_layer)) = snd (quiet (nth i mws (0%Z, ([], [])))).
+Proof. induction mws as [|m r IH]; intros i; destruct i; simpl; try reflexivity. apply IH. Qed.
+
+Lemma server_ops_t_quiet_l mws h ht e :
+  server_ops_t (map quiet mws) h ht e = server_ops mws h (if ht then Some e else None).
+Proof.
+  unfold server_ops_t, server_ops, sorted_layers.
+  rewrite number_quiet, map_map. simpl.
+  set (es := ssort (map (fun im => {| prio := fst (snd im); ident := fst im |}) (number 0 mws))).
+  rewrite layers_ops_quiet.
+  2:{ apply Forall_forall. intros l Hl. apply in_map_iff in Hl. destruct Hl as (x & <- & _).
+      rewrite nth_quiet. split; reflexivity. }
+  rewrite !map_map, <- map_rev, !map_map.
+  assert (P : forall l, map (fun x => l_pre (snd (nth (ident x) (map quiet mws) (0%Z, no_layer)))) l =
+                        map (fun x => fst (snd (nth (ident x) mws (0%Z, ([], []))))) l).
+  { intros l. apply map_ext. intros x. now rewrite nth_quiet. }
+  assert (Q : forall l, map (fun x => l_post (snd (nth (ident x) (map quiet mws) (0%Z, no_layer)))) l =
+                        map (fun x => snd (snd (nth (ident x) mws (0%Z, ([], []))))) l).
+  { intros l. apply map_ext. intros x. now rewrite nth_quiet. }
+  rewrite P, Q. destruct ht; [now rewrite app_nil_r, <- app_assoc | reflexivity].
+Qed.
+
+(* what a propagating throw means for the calls: nothing after it runs in any layer *)
+Lemma layers_ops_tpre ls1 l ls2 h ht : Forall quiet_layer ls1 -> l_tpre l = true ->
+  layers_ops (ls1 ++ l :: ls2) h ht = ((List.concat (map l_pre ls1) ++ l_pre l)%list, true).
+Proof.
+  induction ls1 as [|a ls1 IH]; intros F T; simpl.
+  - now rewrite T.
+  - inversion F as [|? ? [Q1 Q2] F']; subst. rewrite Q1, (IH F' T). now rewrite <- app_assoc.
+Qed.
